@@ -64,6 +64,8 @@ def execute(case: dict) -> dict:
     w = case["world"]
     from .. import viafile
     ds = viafile.hold_ds(w, W.build(w))
+    from ..cellsdrv import snapshot as _snapshot
+    _before = _snapshot(ds)
     if w.get("bounds_as") == "coords":
         names = [ds[n].attrs["bounds"] for n in ds.variables if "bounds" in ds[n].attrs]
         ds = ds.set_coords(names)
@@ -93,6 +95,7 @@ def execute(case: dict) -> dict:
                                     for p in pts]}
             e["obs"] = outcome(geometry)
         rec["events"].append(e)
+    rec["input"] = {"before": _before, "after": _snapshot(ds)}
     return rec
 
 
